@@ -231,6 +231,10 @@ fn foreign_subject() -> BoxedStrategy<FName> {
 		.boxed()
 }
 
+pub fn foreign_csr_strategy() -> BoxedStrategy<ForeignCsr> {
+	foreign_csr()
+}
+
 fn foreign_csr() -> BoxedStrategy<ForeignCsr> {
 	(
 		validator_key().prop_map(|mut k| {
